@@ -1,5 +1,6 @@
 (* C03 — Reader decodes every format-valid file, incl. legacy flags and shipped assets. *)
-From QCo.Lemmas Require Import Tactics.
+From QCo.Lemmas Require Import Tactics SpecL GrammarL.
+From QCo.Model Require Import Spec.
 From QCo.Model Require Import Base Consts DType Codec Reader AssetsData.
 Open Scope N_scope.
 
@@ -11,3 +12,14 @@ Definition asset_ok (a : dtype * list N * list Z) : bool :=
   match decode_file d bytes with Ok xs => list_eqb Z.eqb xs vals | _ => false end.
 Theorem C03_assets : forallb asset_ok assets = true.
 Proof. vm_compute. reflexivity. Qed.
+
+(* Every file in the language of the frozen grammar — any flag combination releases since 0.4
+   have written (4- or 5-bit code lengths, fixed 24-bit or minimal counts, GCD bit on/off, any
+   delta order 0..=7, extra all-zero flag bytes), any complete prefix-free code tree up to the
+   length limit, overlapping or widened ranges, any legal divisor (common or per range),
+   run-length coding on any ranges with any jumpstart 0..=24 and runs split arbitrarily,
+   zero-count chunks, chunks shorter than the delta order — is decoded by the reader model to
+   exactly the numbers it encodes. *)
+Theorem C03_reader_decodes_every_legal_file : forall a, wf_file a ->
+  decode_file (sf_dt a) (bits_to_bytes (enc_file a)) = Ok (file_nums a).
+Proof. exact reader_decodes_grammar. Qed.
